@@ -9,8 +9,8 @@
    (several hundred methods).  For those the check is the snapshot-diff harness harness/c15.py: testing, not proof,
    labelled `level_note` in the evidence.  The table readers of C01/C08 (layer B: caches) belong to another builder's
    libraries and are not restated here. *)
-From Coq Require Import List Arith Bool. Import ListNotations.
-Require Import WS Readers Readersproof.
+From Coq Require Import List Arith Bool ZArith. Import ListNotations.
+Require Import WS Readers Readersproof ReadFam C15fam Vault Row Table TableB TableBabs TableBproof6 Tree Package Pkgproof Styles Toc.
 
 (* a modelled read leaves the paragraph as it was *)
 Theorem C15_read_pure : forall (st : list item) (o : pop), is_read o = true -> fst (pstep st o) = st.
@@ -71,6 +71,85 @@ Proof. vm_compute. reflexivity. Qed.
 Example C15_F20_witness :
   optimize_rows f20_table = [mkRow 1 [mkCell 1 false false; mkCell 1 true true]; mkRow 1 [mkCell 2 true true]].
 Proof. vm_compute. reflexivity. Qed.
+
+(* ================================================================== read families modelled in the other properties' libraries
+   (imported, not re-modelled; see C15fam.v).  One theorem per family: the observable state -- XML runs / part view -- is
+   unchanged AND the answer repeats.  Reads of the table and package families DO change the state (caches, lazy loads):
+   these statements have content. *)
+
+(* table reads and getters THROUGH the wrapper caches (the read alphabet of C02 / C08: size, get_value, get_row_values,
+   get_values, get_column_values, row width, get_values(area), get_cell, get_row, get_cell keep-repeated, traverse / rows,
+   get_column, columns): coherence kept, XML untouched, same answer again *)
+Theorem C15_table_reads_pure : forall (b : bstate) (q : bread), Coh b ->
+  Coh (fst (b_read b q)) /\ ax (fst (b_read b q)) = ax b /\ snd (b_read (fst (b_read b q)) q) = snd (b_read b q).
+Proof. exact table_reads_pure. Qed.
+Print Assumptions C15_table_reads_pure.
+
+Theorem C15_table_reads_in_any_order : forall (qs : list bread) (b : bstate), Coh b ->
+  Coh (fst (frun table_fam b qs)) /\ ax (fst (frun table_fam b qs)) = ax b /\
+  snd (frun table_fam b qs) = map (fun q => snd (b_read b q)) qs.
+Proof. exact table_reads_any_order. Qed.
+Print Assumptions C15_table_reads_in_any_order.
+
+(* any exporter that is a function of a table read -- to_csv (csv_write of get_values), str(table), plain formatted text *)
+Theorem C15_table_export_pure : forall (X : Type) (post : bans -> X) (b : bstate) (q : bread), Coh b ->
+  let export := fun b => (fst (b_read b q), post (snd (b_read b q))) in
+  ax (fst (export b)) = ax b /\ Coh (fst (export b)) /\ snd (export (fst (export b))) = snd (export b).
+Proof. exact table_export_pure. Qed.
+Print Assumptions C15_table_export_pure.
+
+(* search, search_first, search_all, count-only replace, inner_text, text_recursive on the tree model (re abstract) ... *)
+Theorem C15_tree_reads_pure : forall find findall nfind (n : node) (r : tree_read),
+  let step := fstep (tree_fam find findall nfind) in
+  fst (step n r) = n /\ snd (step (fst (step n r)) r) = snd (step n r).
+Proof. exact tree_reads_pure. Qed.
+Print Assumptions C15_tree_reads_pure.
+
+(* ... whereas replace with a replacement is a write of the same model *)
+Theorem C15_tree_replace_is_a_write : exists subn n, fst (repl subn false n) <> n.
+Proof. exact tree_replace_writes. Qed.
+Print Assumptions C15_tree_replace_is_a_write.
+
+(* Document.get_part of an XML part (repaired code): parses and caches, yet bytes and trees of EVERY part read the same,
+   the bookkeeping invariant holds, and the answer repeats *)
+Theorem C15_package_reads_pure : forall (xml bytes kid : Type) (par : bytes -> xml) (fs : fsys bytes kid) (n : name) (d : document xml bytes),
+  WFd xml bytes kid fs d -> is_xml n = true ->
+  let get_part := fun d => d_tree xml bytes kid par FIXED fs n d in
+  (forall m, dB xml bytes kid fs (fst (get_part d)) m = dB xml bytes kid fs d m) /\
+  (forall m, dX xml bytes kid par fs (fst (get_part d)) m = dX xml bytes kid par fs d m) /\
+  WFd xml bytes kid fs (fst (get_part d)) /\
+  snd (get_part (fst (get_part d))) = snd (get_part d).
+Proof. exact package_reads_pure. Qed.
+Print Assumptions C15_package_reads_pure.
+
+(* Document.get_style is a function of the style store *)
+Theorem C15_style_lookup_pure : forall tb (st : store) (f : Z) (n : option sname),
+  let step := fstep (styles_fam tb) in
+  fst (step st (f, n)) = st /\ snd (step st (f, n)) = doc_get_style tb st f n /\ snd (step (fst (step st (f, n))) (f, n)) = snd (step st (f, n)).
+Proof. exact style_lookup_pure. Qed.
+Print Assumptions C15_style_lookup_pure.
+
+(* the heading listing (odfdo-headers) and the entries a TOC would list are functions of the headings *)
+Theorem C15_heading_listing_pure : forall (hs : list heading) (r : head_read),
+  let step := fstep head_fam in fst (step hs r) = hs /\ snd (step (fst (step hs r)) r) = snd (step hs r).
+Proof. exact heading_listing_pure. Qed.
+Print Assumptions C15_heading_listing_pure.
+
+(* ALL modelled reads side by side (a paragraph, a table, an exported table, a tree, a package, a style store, the headings):
+   any history of valid reads of any of them, in any order, any number of times, keeps every invariant and every
+   observable view, and answers each read as the original state would *)
+Theorem C15_modelled_reads_pure : forall find findall nfind (xml bytes kid X : Type) (par : bytes -> xml) (fs : fsys bytes kid) (post : bans -> X) tb,
+  let F := all_reads find findall nfind xml bytes kid X par fs post tb in
+  forall (rs : list (fR F)) (s : fS F), fInv F s -> Forall (fok F) rs ->
+  fInv F (fst (frun F s rs)) /\ fsame F s (fst (frun F s rs)) /\ snd (frun F s rs) = map (fun r => snd (fstep F s r)) rs.
+Proof. exact modelled_reads_pure. Qed.
+Print Assumptions C15_modelled_reads_pure.
+
+(* the hypotheses are inhabited: a freshly parsed table is coherent (C02_fresh_is_coherent), reads in any order *)
+Example C15_example_table_reads :     (* b_cached: the coherent state with a cached row wrapper of C02.v *)
+  Coh b_cached /\
+  ax (fst (frun table_fam b_cached [RQ QValues; RTraverse; RQ (QGetValue 0 1); RColumns; RGetRow 0 false; RQ QValues])) = ax b_cached.
+Proof. split; [exact Coh_b_cached|vm_compute; reflexivity]. Qed.
 
 (* ------------------------------------------------------------------ the property at full strength (NOT proved) *)
 Section Full.
